@@ -12,7 +12,6 @@ package main
 import (
 	"fmt"
 	"reflect"
-	"sort"
 	"strings"
 
 	rbacv1 "k8s.io/api/rbac/v1"
@@ -425,109 +424,167 @@ func c18RoleByName(rs []c18Role, n string) *c18Role {
 	return nil
 }
 
-func c18Written(obs c18Obs) map[string]bool {
-	w := map[string]bool{}
-	for _, ws := range obs.Writes {
-		for _, x := range ws {
-			if i := strings.Index(x, ":"); i >= 0 {
-				w[x[i+1:]] = true
-			}
+// c18Justify is how the monitors read a round: a write is judged against what THIS reconcile
+// was served (every version the API handed to it, fresh or stale) and, as a further admissible
+// justification, against the true store at the moment of the write. Without other writers and
+// with a fresh cache all of these coincide with the scenario's store.
+
+// c18LiveTargets: the live versions of the round's target the reconcile may act for.
+func c18LiveTargets(rec *c18RoundRec, w c18Write) []c18PR {
+	var out []c18PR
+	add := func(p c18PR) {
+		if p.Name == rec.Target && !p.Paused && !p.Deleted {
+			out = append(out, p)
 		}
 	}
-	return w
+	for _, p := range rec.PRs {
+		add(p)
+	}
+	for _, p := range w.TruePRs {
+		add(p)
+	}
+	return out
 }
 
-// c18Untouched reports roles other than `mine` that changed, appeared or disappeared.
-func c18Untouched(before, after []c18Role, mine map[string]bool, sig string) []Mon {
-	var mons []Mon
-	names := map[string]bool{}
-	for _, r := range before {
-		names[r.Name] = true
+// c18AllowVersions: the allow-list contents the grant may rest on.
+func c18AllowVersions(rec *c18RoundRec, w c18Write) [][]c18PRule {
+	out := append([][]c18PRule{}, rec.Allows...)
+	if w.TrueAllow != nil {
+		out = append(out, *w.TrueAllow)
 	}
-	for _, r := range after {
-		names[r.Name] = true
-	}
-	for n := range names {
-		if mine[n] {
-			continue
-		}
-		if !reflect.DeepEqual(c18RoleByName(before, n), c18RoleByName(after, n)) {
-			mons = append(mons, Mon{Sig: sig, Why: "ClusterRole " + n + " is not one of this object's roles but was created or changed"})
-		}
-	}
-	return mons
+	return out
 }
 
-func c18MonReconcile(s c18Scn, before []c18Role, obs c18Obs, rejected []roles.Rule, verr error, anyWrite bool) []Mon {
+func c18Granular(reqs []c18PRule) int {
+	n := 0
+	for _, q := range reqs {
+		n += len(c18Breakdown(q.k8s()))
+	}
+	return n
+}
+
+func c18MonRoundReconcile(s c18Scn, rec *c18RoundRec) []Mon {
 	var mons []Mon
-	t := c18Target(s)
-	if t == nil || t.Paused || t.Deleted {
-		if anyWrite {
-			mons = append(mons, Mon{Sig: "C18:write-for-inactive-revision", Why: "a role was written for a missing, paused or deleted revision"})
-		}
-		return mons
-	}
-	if (len(rejected) > 0 || verr != nil) && anyWrite {
-		mons = append(mons, Mon{Sig: "C18:role-written-despite-rejection", Why: fmt.Sprintf("%d requested rule(s) rejected (validator error: %v) but writes happened: %v", len(rejected), verr, obs.Writes)})
-	}
-	if anyWrite {
-		// end to end, independent of what the validator reported: roles were written, so every
-		// granular request counts as granted and must be covered by the allow list that exists
-		if s.Validator == "role" {
-			mons = append(mons, c18MonValidate(c18Scn{Kind: "validate", Allow: s.Allow, Requests: t.Requests}, nil, nil)...)
-		} else {
-			n := 0
-			for _, q := range t.Requests {
-				n += len(c18Breakdown(q.k8s()))
-			}
-			if n > 0 {
-				mons = append(mons, Mon{Sig: "C18:role-written-without-allow-list", Why: fmt.Sprintf("%d granular request(s), validator=%s (no allow-list role to cover them), but roles were written", n, s.Validator)})
-			}
-		}
-	}
-	prefix := "crossplane:provider:" + t.Name + ":"
+	prefix := "crossplane:provider:" + rec.Target + ":"
 	mine := map[string]bool{prefix + "aggregate-to-edit": true, prefix + "aggregate-to-view": true, prefix + "system": true}
-	mons = append(mons, c18Untouched(before, obs.Roles, mine, "C18:foreign-role-touched")...)
-
-	// resources this revision may be granted, and resources it must not be
-	allowed := map[c18Res]bool{}
-	foreign := map[c18Res]bool{}
-	for _, r := range c18CRDs(t.Refs) {
-		allowed[r] = true
-	}
-	for _, m := range s.PRs {
-		if m.UID == t.UID {
+	for _, w := range rec.Writes {
+		if w.GK != gkString(c18RoleGK) {
+			mons = append(mons, Mon{Sig: "C18:foreign-binding-touched", Why: fmt.Sprintf("the roles reconciler wrote %s %s", w.GK, w.Name)})
 			continue
 		}
-		same := t.Family != "" && m.Family == t.Family && t.Org != nil && m.Org != nil && *t.Org == *m.Org
-		for _, r := range c18CRDs(m.Refs) {
-			if same {
-				allowed[r] = true
-			} else {
-				foreign[r] = true
+		if !mine[w.Name] {
+			mons = append(mons, Mon{Sig: "C18:foreign-role-touched", Why: "ClusterRole " + w.Name + " is not one of this revision's roles but was written (" + w.Verb + ")"})
+			continue
+		}
+		cands := c18LiveTargets(rec, w)
+		if len(cands) == 0 {
+			mons = append(mons, Mon{Sig: "C18:write-for-inactive-revision", Why: "role " + w.Name + " written (" + w.Verb + ") although no live revision " + rec.Target + " was served or exists"})
+			continue
+		}
+		uids := map[string]bool{}
+		for _, p := range cands {
+			uids[p.UID] = true
+		}
+		if w.PrevRole != nil && w.PrevRole.Ctrl != "" && !uids[w.PrevRole.Ctrl] {
+			mons = append(mons, Mon{Sig: "C18:foreign-role-touched", Why: "role " + w.Name + " controlled by " + w.PrevRole.Ctrl + " at the moment of the write was overwritten (" + w.Verb + ")"})
+		}
+		if w.Role == nil {
+			continue // deleted: nothing is granted
+		}
+		if !uids[w.Role.Ctrl] {
+			mons = append(mons, Mon{Sig: "C18:role-wrong-owner", Why: "written role " + w.Name + " is controlled by " + w.Role.Ctrl})
+		}
+
+		// requests are granted only if covered: some live version of the revision, some allow-list
+		// content (served to this reconcile, or in the store right now) under which EVERY granular
+		// request is covered. No role at all otherwise.
+		allows := c18AllowVersions(rec, w)
+		okReq := false
+		var last []Mon
+		freshRejects := true
+		for _, p := range cands {
+			if s.Validator == "none" {
+				if c18Granular(p.Requests) == 0 {
+					okReq = true
+				}
+				continue
+			}
+			if c18Granular(p.Requests) == 0 {
+				okReq = true // nothing is requested: nothing to cover
+				if len(allows) > 0 {
+					freshRejects = false
+				}
+			}
+			for i := range allows {
+				ms := c18MonValidate(c18Scn{Kind: "validate", Allow: allows[i], Requests: p.Requests}, nil, nil)
+				if len(ms) == 0 {
+					okReq = true
+				} else {
+					last = ms
+				}
+				if n, failed := c18FreshVerdict(s.Validator, &allows[i], p.Requests); n == 0 && !failed {
+					freshRejects = false
+				}
 			}
 		}
-	}
-	allowedGroup := map[string]bool{}
-	for r := range allowed {
-		allowedGroup[r.Group] = true
-	}
-	requests := c18K8sRules(t.Requests)
-	written := c18Written(obs)
-	for n := range mine {
-		if !written[n] {
-			continue
+		if !okReq {
+			if len(last) > 0 {
+				mons = append(mons, last...)
+			} else {
+				n := 0
+				for _, p := range cands {
+					n += c18Granular(p.Requests)
+				}
+				mons = append(mons, Mon{Sig: "C18:role-written-without-allow-list", Why: fmt.Sprintf("%d granular request(s), validator=%s, no allow-list role was served or exists to cover them, but role %s was written", n, s.Validator, w.Name)})
+			}
 		}
-		role := c18RoleByName(obs.Roles, n)
-		if role == nil {
-			continue
+		if freshRejects && s.Validator != "none" && len(allows) > 0 {
+			mons = append(mons, Mon{Sig: "C18:role-written-despite-rejection", Why: fmt.Sprintf("a fresh validator rejects the revision's requests under every allow-list content this reconcile was served (%d) or that exists, but role %s was written", len(allows), w.Name)})
 		}
-		if role.Ctrl != t.UID {
-			mons = append(mons, Mon{Sig: "C18:role-wrong-owner", Why: "written role " + n + " is controlled by " + role.Ctrl})
+		if s.Validator == "none" && !okReq {
+			mons = append(mons, Mon{Sig: "C18:role-written-despite-rejection", Why: "without an allow-list every request is rejected, but role " + w.Name + " was written"})
 		}
-		if b := c18RoleByName(before, n); b != nil && b.Ctrl != "" && b.Ctrl != t.UID {
-			mons = append(mons, Mon{Sig: "C18:foreign-role-touched", Why: "role " + n + " controlled by " + b.Ctrl + " was overwritten"})
+
+		// the resources this revision may be granted, and the resources it must not be
+		allowed := map[c18Res]bool{}
+		foreign := map[c18Res]bool{}
+		lists := append([][]c18PR{}, rec.Lists...)
+		lists = append(lists, w.TruePRs)
+		for _, t := range cands {
+			for _, r := range c18CRDs(t.Refs) {
+				allowed[r] = true
+			}
+			for _, l := range lists {
+				for _, m := range l {
+					if m.UID == t.UID {
+						continue
+					}
+					if t.Family != "" && m.Family == t.Family && t.Org != nil && m.Org != nil && *t.Org == *m.Org {
+						for _, r := range c18CRDs(m.Refs) {
+							allowed[r] = true
+						}
+					}
+				}
+			}
 		}
+		for _, l := range append(lists, rec.PRs) {
+			for _, m := range l {
+				for _, r := range c18CRDs(m.Refs) {
+					if !allowed[r] {
+						foreign[r] = true
+					}
+				}
+			}
+		}
+		allowedGroup := map[string]bool{}
+		for r := range allowed {
+			allowedGroup[r.Group] = true
+		}
+		var requests []rbacv1.PolicyRule
+		for _, t := range cands {
+			requests = append(requests, c18K8sRules(t.Requests)...)
+		}
+		n := w.Name
 		var verbs []string
 		switch {
 		case strings.HasSuffix(n, ":system"):
@@ -537,7 +594,7 @@ func c18MonReconcile(s c18Scn, before []c18Role, obs c18Obs, rejected []roles.Ru
 		default:
 			verbs = []string{"get", "list", "watch"}
 		}
-		for _, pr := range role.Rules {
+		for _, pr := range w.Role.Rules {
 			r := pr.k8s()
 			system := strings.HasSuffix(n, ":system")
 			if system && c18BaselineShaped(r) {
@@ -604,34 +661,10 @@ func c18SaneName(x string) bool {
 	return x != "" && !strings.ContainsAny(x, "*/")
 }
 
-func c18MonXRD(s c18Scn, before []c18Role, obs c18Obs) []Mon {
-	var mons []Mon
-	var x *c18XRD
-	for i := range s.XRDs {
-		if s.XRDs[i].Name == s.Target {
-			x = &s.XRDs[i]
-		}
-	}
-	written := c18Written(obs)
-	if x == nil || x.Deleted {
-		if len(written) > 0 {
-			mons = append(mons, Mon{Sig: "C18:write-for-inactive-xrd", Why: "a role was written for a missing or deleted XRD"})
-		}
-		return mons
-	}
-	prefix := "crossplane:composite:" + x.Name + ":"
-	kinds := map[string]string{prefix + "aggregate-to-crossplane": "system", prefix + "aggregate-to-edit": "edit", prefix + "aggregate-to-view": "view", prefix + "aggregate-to-browse": "browse"}
-	mine := map[string]bool{}
-	for n := range kinds {
-		mine[n] = true
-	}
-	mons = append(mons, c18Untouched(before, obs.Roles, mine, "C18:foreign-role-touched")...)
-	sane := c18SaneName(x.Group) && c18SaneName(x.Plural) && (!x.HasClaim || (c18SaneName(x.Claim) && x.Claim != x.Plural))
-	if !sane {
-		return mons
-	}
+// c18XRDRoleOK: does `role` (of the given kind) grant exactly the composite and claim resources of x?
+func c18XRDRoleOK(x c18XRD, kind string, role c18Role) (bool, string, string) {
 	read := map[string]bool{"get": true, "list": true, "watch": true}
-	expected := func(kind, group, res, sub, verb string) bool {
+	expected := func(group, res, sub, verb string) bool {
 		if group != x.Group {
 			return false
 		}
@@ -651,48 +684,88 @@ func c18MonXRD(s c18Scn, before []c18Role, obs c18Obs) []Mon {
 		}
 		return false
 	}
-	names := make([]string, 0, len(kinds))
-	for n := range kinds {
-		names = append(names, n)
-	}
-	sort.Strings(names)
-	for _, n := range names {
-		if !written[n] {
-			continue
-		}
-		role := c18RoleByName(obs.Roles, n)
-		if role == nil {
-			continue
-		}
-		if role.Ctrl != x.UID {
-			mons = append(mons, Mon{Sig: "C18:role-wrong-owner", Why: "written role " + n + " is controlled by " + role.Ctrl})
-		}
-		rules := c18K8sRules(role.Rules)
-		for _, g := range []string{x.Group, "other.example.org", ""} {
-			for _, res := range []string{x.Plural, x.Claim, "others", "secrets"} {
-				if res == "" {
-					continue
-				}
-				for _, sub := range []string{"", "status", "finalizers", "scale"} {
-					for _, verb := range []string{"get", "list", "watch", "create", "update", "patch", "delete", "deletecollection", "escalate"} {
-						for _, nm := range []string{"", "some-name"} {
-							got := c18RulesAllow(c18Attr{Resource: true, Verb: verb, Group: g, Res: res, Sub: sub, Name: nm}, rules)
-							want := expected(kinds[n], g, res, sub, verb)
-							if got && !want {
-								mons = append(mons, Mon{Sig: "C18:xrd-role-foreign-grant", Why: fmt.Sprintf("role %s allows %s %s/%s/%s which is not the XRD's composite or claim resource", n, verb, g, res, sub)})
-								return mons
-							}
-							if !got && want {
-								mons = append(mons, Mon{Sig: "C18:xrd-role-missing-grant", Why: fmt.Sprintf("role %s does not allow %s %s/%s/%s", n, verb, g, res, sub)})
-								return mons
-							}
+	rules := c18K8sRules(role.Rules)
+	for _, g := range []string{x.Group, "other.example.org", ""} {
+		for _, res := range []string{x.Plural, x.Claim, "others", "secrets", "xthings", "things", "xa", "a", "widgets", "gadgets"} {
+			if res == "" {
+				continue
+			}
+			for _, sub := range []string{"", "status", "finalizers", "scale"} {
+				for _, verb := range []string{"get", "list", "watch", "create", "update", "patch", "delete", "deletecollection", "escalate"} {
+					for _, nm := range []string{"", "some-name"} {
+						got := c18RulesAllow(c18Attr{Resource: true, Verb: verb, Group: g, Res: res, Sub: sub, Name: nm}, rules)
+						want := expected(g, res, sub, verb)
+						if got && !want {
+							return false, "C18:xrd-role-foreign-grant", fmt.Sprintf("role %s allows %s %s/%s/%s which is not the XRD's composite or claim resource", role.Name, verb, g, res, sub)
+						}
+						if !got && want {
+							return false, "C18:xrd-role-missing-grant", fmt.Sprintf("role %s does not allow %s %s/%s/%s", role.Name, verb, g, res, sub)
 						}
 					}
 				}
 			}
 		}
-		if c18RulesAllow(c18Attr{Verb: "get", Path: "/metrics"}, rules) {
-			mons = append(mons, Mon{Sig: "C18:xrd-role-foreign-grant", Why: "role " + n + " allows a non-resource URL"})
+	}
+	if c18RulesAllow(c18Attr{Verb: "get", Path: "/metrics"}, rules) {
+		return false, "C18:xrd-role-foreign-grant", "role " + role.Name + " allows a non-resource URL"
+	}
+	return true, "", ""
+}
+
+func c18MonRoundXRD(s c18Scn, rec *c18RoundRec) []Mon {
+	var mons []Mon
+	prefix := "crossplane:composite:" + rec.Target + ":"
+	kinds := map[string]string{prefix + "aggregate-to-crossplane": "system", prefix + "aggregate-to-edit": "edit", prefix + "aggregate-to-view": "view", prefix + "aggregate-to-browse": "browse"}
+	for _, w := range rec.Writes {
+		if w.GK != gkString(c18RoleGK) {
+			mons = append(mons, Mon{Sig: "C18:foreign-binding-touched", Why: fmt.Sprintf("the XRD roles reconciler wrote %s %s", w.GK, w.Name)})
+			continue
+		}
+		if kinds[w.Name] == "" {
+			mons = append(mons, Mon{Sig: "C18:foreign-role-touched", Why: "ClusterRole " + w.Name + " is not one of this XRD's roles but was written (" + w.Verb + ")"})
+			continue
+		}
+		var cands []c18XRD
+		for _, l := range [][]c18XRD{rec.XRDs, w.TrueXRDs} {
+			for _, x := range l {
+				if x.Name == rec.Target && !x.Deleted {
+					cands = append(cands, x)
+				}
+			}
+		}
+		if len(cands) == 0 {
+			mons = append(mons, Mon{Sig: "C18:write-for-inactive-xrd", Why: "role " + w.Name + " written (" + w.Verb + ") although no live XRD " + rec.Target + " was served or exists"})
+			continue
+		}
+		uids := map[string]bool{}
+		for _, x := range cands {
+			uids[x.UID] = true
+		}
+		if w.PrevRole != nil && w.PrevRole.Ctrl != "" && !uids[w.PrevRole.Ctrl] {
+			mons = append(mons, Mon{Sig: "C18:foreign-role-touched", Why: "role " + w.Name + " controlled by " + w.PrevRole.Ctrl + " at the moment of the write was overwritten (" + w.Verb + ")"})
+		}
+		if w.Role == nil {
+			continue
+		}
+		if !uids[w.Role.Ctrl] {
+			mons = append(mons, Mon{Sig: "C18:role-wrong-owner", Why: "written role " + w.Name + " is controlled by " + w.Role.Ctrl})
+		}
+		ok, sig, why := false, "", ""
+		for _, x := range cands {
+			sane := c18SaneName(x.Group) && c18SaneName(x.Plural) && (!x.HasClaim || (c18SaneName(x.Claim) && x.Claim != x.Plural))
+			if !sane {
+				ok = true // names a real API server refuses: nothing to say
+				break
+			}
+			if o, sg, wh := c18XRDRoleOK(x, kinds[w.Name], *w.Role); o {
+				ok = true
+				break
+			} else {
+				sig, why = sg, wh
+			}
+		}
+		if !ok {
+			mons = append(mons, Mon{Sig: sig, Why: why})
 		}
 	}
 	return mons
@@ -700,63 +773,59 @@ func c18MonXRD(s c18Scn, before []c18Role, obs c18Obs) []Mon {
 
 // ---------------------------------------------------------------- binding monitor
 
-func c18MonBinding(s c18Scn, before []c18Binding, obs c18Obs) []Mon {
+func c18MonRoundBinding(s c18Scn, rec *c18RoundRec) []Mon {
 	var mons []Mon
-	t := c18Target(s)
-	written := c18Written(obs)
-	if t == nil || t.Paused || t.Deleted {
-		if len(written) > 0 {
-			mons = append(mons, Mon{Sig: "C18:write-for-inactive-revision", Why: "a binding was written for a missing, paused or deleted revision"})
+	n := "crossplane:provider:" + rec.Target + ":system"
+	for _, w := range rec.Writes {
+		if w.GK != gkString(c18BindingGK) {
+			mons = append(mons, Mon{Sig: "C18:foreign-role-touched", Why: fmt.Sprintf("the binding reconciler wrote %s %s", w.GK, w.Name)})
+			continue
 		}
-		return mons
-	}
-	n := "crossplane:provider:" + t.Name + ":system"
-	byName := func(bs []c18Binding, n string) *c18Binding {
-		for i := range bs {
-			if bs[i].Name == n {
-				return &bs[i]
+		if w.Name != n {
+			mons = append(mons, Mon{Sig: "C18:foreign-binding-touched", Why: "ClusterRoleBinding " + w.Name + " was written (" + w.Verb + ")"})
+			continue
+		}
+		cands := c18LiveTargets(rec, w)
+		if len(cands) == 0 {
+			mons = append(mons, Mon{Sig: "C18:write-for-inactive-revision", Why: "binding " + w.Name + " written (" + w.Verb + ") although no live revision " + rec.Target + " was served or exists"})
+			continue
+		}
+		uids := map[string]bool{}
+		for _, p := range cands {
+			uids[p.UID] = true
+		}
+		if w.PrevBinding != nil && w.PrevBinding.Ctrl != "" && !uids[w.PrevBinding.Ctrl] {
+			mons = append(mons, Mon{Sig: "C18:foreign-binding-touched", Why: "binding controlled by " + w.PrevBinding.Ctrl + " at the moment of the write was overwritten"})
+		}
+		b := w.Binding
+		if b == nil {
+			continue
+		}
+		if b.RoleRef != n {
+			mons = append(mons, Mon{Sig: "C18:binding-wrong-role", Why: "binding " + n + " refers to role " + b.RoleRef})
+		}
+		if !uids[b.Ctrl] {
+			mons = append(mons, Mon{Sig: "C18:role-wrong-owner", Why: "binding " + n + " is controlled by " + b.Ctrl})
+		}
+		ok := false
+		var wants [][]c18Subject
+		for _, t := range cands {
+			for _, ds := range append(append([][]c18Deploy{}, rec.DepLists...), w.TrueDeploys) {
+				want := []c18Subject{}
+				for _, d := range ds {
+					for _, o := range d.Owners {
+						if o == t.UID {
+							want = append(want, c18Subject{NS: d.NS, Name: d.SA})
+						}
+					}
+				}
+				wants = append(wants, want)
+				ok = ok || reflect.DeepEqual(want, b.Subjects)
 			}
 		}
-		return nil
-	}
-	names := map[string]bool{}
-	for _, b := range before {
-		names[b.Name] = true
-	}
-	for _, b := range obs.Bindings {
-		names[b.Name] = true
-	}
-	for x := range names {
-		if x != n && !reflect.DeepEqual(byName(before, x), byName(obs.Bindings, x)) {
-			mons = append(mons, Mon{Sig: "C18:foreign-binding-touched", Why: "ClusterRoleBinding " + x + " was created or changed"})
+		if !ok {
+			mons = append(mons, Mon{Sig: "C18:binding-foreign-subject", Why: fmt.Sprintf("binding subjects %v, expected the service accounts of the revision's deployments %v", b.Subjects, wants)})
 		}
-	}
-	if !written[n] {
-		return mons
-	}
-	b := byName(obs.Bindings, n)
-	if b == nil {
-		return mons
-	}
-	if pb := byName(before, n); pb != nil && pb.Ctrl != "" && pb.Ctrl != t.UID {
-		mons = append(mons, Mon{Sig: "C18:foreign-binding-touched", Why: "binding controlled by " + pb.Ctrl + " was overwritten"})
-	}
-	if b.RoleRef != n {
-		mons = append(mons, Mon{Sig: "C18:binding-wrong-role", Why: "binding " + n + " refers to role " + b.RoleRef})
-	}
-	if b.Ctrl != t.UID {
-		mons = append(mons, Mon{Sig: "C18:role-wrong-owner", Why: "binding " + n + " is controlled by " + b.Ctrl})
-	}
-	want := []c18Subject{}
-	for _, d := range s.Deploys {
-		for _, o := range d.Owners {
-			if o == t.UID {
-				want = append(want, c18Subject{NS: d.NS, Name: d.SA})
-			}
-		}
-	}
-	if !reflect.DeepEqual(want, b.Subjects) {
-		mons = append(mons, Mon{Sig: "C18:binding-foreign-subject", Why: fmt.Sprintf("binding subjects %v, expected the service accounts of the revision's deployments %v", b.Subjects, want)})
 	}
 	return mons
 }
